@@ -29,7 +29,8 @@ def job(src, kind='start', k=5, target_index=1, fails=False):
     """H10a: one real start (or stop) job against a target whose ticks, events and silences are solver-chosen; an
     independent monitor computes the tick deadline"""
     from supvisors.ttypes import StartingStrategies
-    core = FC.operational(2)
+    # auto_fence: a lost target is ISOLATED instead of STOPPED (the Master is at work) - the job is given up all the same
+    core = FC.operational(2, {'auto_fence': 'true'} if src.pick_flag('auto_fence') else {})
     if src.pick_flag('event_link'):
         core.external_publisher = _Publisher()          # event_link = ZMQ / WS: every event is also published outside
     ids = core.ids
